@@ -108,3 +108,30 @@ let () =
           res_to (fun (s, valid) -> List [Atom "ok"; ss s; bit valid])
             (Extracted.EmitBash.script_of_dfa (cl (string_ cmd)) (cl (string_ sg)) (cdfa_of d) (ord_of om) (ord_subs_of os) groups)
       | _ -> raise (Shape "emitbash args"))
+
+(* readscript <shell> "script text" -> (<stmt>...)                      Spec.ScriptRead.read_stmts
+   <stmt> = (func "n") (end) (body "t") (lits "v" ("a"..)) (str "v" k "s") (decl "v") (row "v" s ((k v)..))
+            (assoc "v" ((s (l ..))..)) (scalar "v" n) (set "v" idx|- (n|"s" ..)) (call "n") (register "a" ..) *)
+module SR = Extracted.ScriptRead
+let of_stmt (s : SR.stmt) : t =
+  match s with
+  | SR.SFunc n -> List [Atom "func"; ss n]
+  | SR.SEnd -> List [Atom "end"]
+  | SR.SBody b -> List [Atom "body"; ss b]
+  | SR.SLits (v, l) -> List [Atom "lits"; ss v; List (List.map ss l)]
+  | SR.SStr (v, k, d) -> List [Atom "str"; ss v; sn k; ss d]
+  | SR.SDecl v -> List [Atom "decl"; ss v]
+  | SR.SRow (v, s, l) -> List [Atom "row"; ss v; sn s; List (List.map of_pair l)]
+  | SR.SAssoc (v, l) -> List [Atom "assoc"; ss v; List (List.map (fun (k, ids) -> List [sn k; List (List.map sn ids)]) l)]
+  | SR.SScalar (v, n) -> List [Atom "scalar"; ss v; sn n]
+  | SR.SSet (v, idx, l) ->
+      List [Atom "set"; ss v; (match idx with Some k -> sn k | None -> Atom "-");
+            List (List.map (fun i -> match i with SR.INum n -> sn n | SR.IStr s -> ss s) l)]
+  | SR.SCall n -> List [Atom "call"; ss n]
+  | SR.SRegister l -> List (Atom "register" :: List.map ss l)
+
+let () =
+  register "readscript" (fun v ->
+      match v with
+      | List [sh; s] -> List (List.map of_stmt (SR.read_stmts (shell_of sh) (cl (string_ s))))
+      | _ -> raise (Shape "readscript args"))
